@@ -78,8 +78,11 @@ Definition parse_forest (ts : list tok) : option (list ntree) :=
 (* ---- characters *)
 Definition is_digit (c : ascii) : bool :=
   let n := nat_of_ascii c in (48 <=? n)%nat && (n <=? 57)%nat.
+(* "%.3f" % height writes digits, '.', '-' and - for infinite / undefined heights - the words
+   inf, -inf, nan (letters i n f a) *)
 Definition is_hchar (c : ascii) : bool :=
-  is_digit c || Ascii.eqb c "."%char || Ascii.eqb c "-"%char.
+  is_digit c || Ascii.eqb c "."%char || Ascii.eqb c "-"%char
+  || Ascii.eqb c "i"%char || Ascii.eqb c "n"%char || Ascii.eqb c "f"%char || Ascii.eqb c "a"%char.
 
 Definition digit_val (c : ascii) : Z := Z.of_nat (nat_of_ascii c) - 48.
 
